@@ -89,7 +89,7 @@ CLAIM = dict(
          "list and the default are accepted. Default VALUES are taken from the code's own no-source run (only WHEN they "
          "apply is checked). XDG_CONFIG_DIRS / XDG_CONFIG_HOME extra locations are unset. Plugin sections ([Plugin \"x\"] "
          "repeatable values are replaced, not accumulated, by a later file) and undocumented options (java.defaultmavenrepo "
-         "appends to a preset default) are out of scope. The e2e sample (40 quick / 400 thorough cases) cannot place a "
+         "appends to a preset default) are out of scope. The e2e sample (40 quick / 150 thorough cases) cannot place a "
          "machine-level file (/etc is never touched).",
     technique="TLA+ spec Config.tla model-checked with TLC; TLC-enumerated cases replayed into the real config reader")
 
@@ -287,7 +287,7 @@ def run(ctx):
             batch(vlib.tlc(ctx, "Config", cfg, workers=8, timeout=2400, java_opts=["-Xmx6g"]).cases)
         ctx.exhaustive = True
         random.Random(ctx.seed).shuffle(st["pool"])
-        e2e_cases = st["pool"][:40 if ctx.quick else 400]
+        e2e_cases = st["pool"][:40 if ctx.quick else 150]
     defaults = st["defaults"]
     # algorithm-level diagnostic: the order in which the code opens its sources
     if defaults is not None:
